@@ -101,7 +101,9 @@ def programs(tier):
         out.append((f"if-value-after-consts:{n}", if_value_many_consts(n), VERSIONS))
     seen = set()
     k = 0
-    for tags, src in c12.programs("quick"):
+    # quick: the C12 definition/placement programs are left to the thorough tier (their bytecode shapes are covered by the
+    # C01/C13 families; they cost 1 000+ compiles)
+    for tags, src in (c12.programs("quick") if not quick else []):
         if src not in seen:
             seen.add(src)
             k += 1
